@@ -33,12 +33,12 @@ func c36Shrink(raw json.RawMessage) []json.RawMessage {
 // C36: a collector history cut by Stop at a random point (crash point = any prefix), with buffered
 // traces, pending late spans, ticks and ejections before it.
 func c36Gen(r *rand.Rand, tier string, i int) any {
-	if i%6 == 4 { // shutdown while the workers are deciding (run in a child process: a crash is a finding)
+	if i%12 == 4 { // shutdown while the workers are deciding (run in a child process: a crash is a finding)
 		in := collInput{Workers: 1 + r.Intn(3), T0: 1_700_000_000 * collSec, Inflight: true, ShrinkMax: 1}
 		one := 1
 		in.Tables = [][]collRule{{{Cls: &one, Drop: true}}}
 		in.Cfg = collCfg{TT: collSec, SD: collMs, SL: 0, ME: 0}
-		n := 150 + r.Intn(250)
+		n := 60 + r.Intn(60)
 		for k := 0; k < n; k++ {
 			in.Ops = append(in.Ops, collOp{Op: "span", Span: &collSpan{Tid: k, Sid: k, Cls: []int{1, 1, 0}[r.Intn(3)], Pad: r.Intn(40)}})
 		}
